@@ -1,0 +1,31 @@
+//go:build verif
+
+package desync
+
+import "os"
+
+// Verification hooks, compiled in only with the "verif" build tag. They let an
+// external test harness observe or perturb scheduling at named sites and
+// substitute an in-process emulation of FICLONERANGE on filesystems without
+// reflink support. Without the tag (see verif_nohooks.go) all of this compiles
+// to nothing.
+
+// VerifHook, if set, is called with the site name at every verifYield point.
+var VerifHook func(site string)
+
+// VerifCloner emulates block cloning when installed in VerifClone.
+type VerifCloner interface {
+	CanClone(dstFile, srcFile string) bool
+	CloneRange(dst, src *os.File, srcOffset, srcLength, dstOffset uint64) error
+}
+
+// VerifClone, if set, replaces the FICLONERANGE ioctl in CanClone/CloneRange.
+var VerifClone VerifCloner
+
+func verifYield(site string) {
+	if h := VerifHook; h != nil {
+		h(site)
+	}
+}
+
+func verifCloner() VerifCloner { return VerifClone }
